@@ -13,7 +13,7 @@ from pipeline import field, parse_loc, pipe_req
 from props.graphfacts import CORPUS, conclude, replay  # noqa: F401
 
 THEOREMS = ["Rva.class_membership_equivariant", "Rva.admissible_fixes_args", "Rva.class_sets_invariant",
-            "Rva.ecall_table_args_only", "Rva.reg_alias", "Rva.mem_ofList"]
+            "Rva.ecall_table_args_only", "Rva.reg_alias", "Rva.mem_ofList", "Rva.firstLabel_renaming"]
 
 
 def diag_key(line, regmap=None):
@@ -26,9 +26,21 @@ def diag_key(line, regmap=None):
     return (code, at["sl"] if at else -1, re.sub(r"\s+", " ", txt))
 
 
+def run_title(line, maps=None):
+    """title of a reported item with the renaming applied; a list of names after a colon (which the
+    real code prints sorted by name) is compared as a set"""
+    t = unhx(field(line, "title") or "")
+    if maps is not None:
+        t = rename.apply(t, maps[0], maps[1])
+    if ": " in t:
+        head, tail = t.split(": ", 1)
+        t = head + ": " + ", ".join(sorted(x.strip() for x in tail.split(",")))
+    return t
+
+
 def run(res, tier, seed):
     rng = random.Random(seed)
-    proof_ok = proof_stage(res, "Rva.Proofs.C14", THEOREMS, extra_modules=["Rva.Proofs.Tables"])
+    proof_ok = proof_stage(res, "Rva.Proofs.C14", THEOREMS, extra_modules=["Rva.Proofs.Tables", "Rva.Proofs.FirstLabel"])
     n = 60 if tier == "quick" else 800
     # every role a saved register / a temporary can play, written with s1 / t1 and renamed into every
     # other member of the class (all transpositions are applied to these programs below): pointer
@@ -69,6 +81,24 @@ def run(res, tier, seed):
         for pm in perms:
             lm = rename.fresh_labels(rng, rename.labels_of(s)) if rng.random() < 0.6 else {}
             cases.append((s, pm, lm, rename.apply(s, pm, lm)))
+    # programs that use labels defined nowhere: one error, located at one of the uses - at the same
+    # use whatever the labels are called (name maps that keep, reverse and shuffle the alphabetical
+    # order of the names, and maps onto mnemonic spellings)
+    UNDEF = [("main:\n    beqz a0, bbb\n    j    aaa\n    li   a7, 10\n    ecall\n", ["aaa", "bbb"]),
+             ("main:\n    jal  zz_fn\n    bnez a0, aa_lab\n    la   t0, mm_sym\n    call bb_fn\n    li a7, 10\n    ecall\n",
+              ["zz_fn", "aa_lab", "mm_sym", "bb_fn"]),
+             ("main:\n    la   t0, tbl\n    j    out\n    jal  helper\nback:\n    bgt  a0, a1, back2\n    li a7, 10\n    ecall\n",
+              ["tbl", "out", "helper", "back2", "back"]),
+             ("f:\n    beq  a0, a1, L2\n    j    L10\n    ret\n", ["L2", "L10", "f"])]
+    for s, names in UNDEF:
+        srt = sorted(names)
+        maps = [dict(zip(srt, [f"n{i}_x" for i in range(len(srt))])),
+                dict(zip(srt, [f"n{len(srt) - i}_x" for i in range(len(srt))])),
+                dict(zip(srt, rng.sample(["div", "ret", "J", "sub", "zz", "Aa", "_0", "call"], len(srt))))]
+        for _ in range(3):
+            maps.append(rename.fresh_labels(rng, names))
+        for lm in maps:
+            cases.append((s, {}, lm, rename.apply(s, {}, lm)))
     reqs = []
     for s, pm, lm, s2 in cases:
         reqs.append(pipe_req("lints,run", [("m.s", s)]))
@@ -117,11 +147,17 @@ def run(res, tier, seed):
             kinds[c] = kinds.get(c, 0) + 1
         if ka:
             nontrivial += 1
-        ra = sorted((field(l, "title"), parse_loc(field(l, "at"))["sl"]) for l in a if l.startswith("RUN "))
-        rb = sorted((field(l, "title"), parse_loc(field(l, "at"))["sl"]) for l in b if l.startswith("RUN "))
+        ra = sorted((run_title(l, (pm, lm)), parse_loc(field(l, "at"))["sl"]) for l in a if l.startswith("RUN "))
+        rb = sorted((run_title(l), parse_loc(field(l, "at"))["sl"]) for l in b if l.startswith("RUN "))
         if amb[s]:
             ra = rb = []
-        if (ka != kb or (ra != rb and not lm)) and first is None:
+        if ka == kb and ra != rb and first is None:
+            first = {"what": "renaming changes the reported items (title, line): " +
+                             f"original(renamed)={[x for x in ra if x not in rb][:3]} vs renamed program="
+                             f"{[x for x in rb if x not in ra][:3]}",
+                     "source": s, "renamed": s2, "register_map": pm, "label_map": lm,
+                     "replay_cmd": "echo '%s' | %s" % (pipe_req("run", [("m.s", s2)]), RVH_DEBUG)}
+        if ka != kb and first is None:
             first = {"what": "renaming changes the diagnostics: " +
                              f"original(renamed)={[x for x in ka if x not in kb][:3]} vs renamed program="
                              f"{[x for x in kb if x not in ka][:3]}",
